@@ -125,3 +125,15 @@ func VerifInfoSizeVotes(t *Torrent) map[uint32]int {
 func VerifTorrentCount() int {
 	return count()
 }
+
+// VerifAttachPeer does what the TorAddPeer handler does before it starts
+// the peer's goroutine: it hands the torrent's pieces to the peer and lists
+// it (duplicated lines; the harness then plays the peer's loop itself).
+func VerifAttachPeer(t *Torrent, p *peer.Peer) {
+	p.Pieces = &t.Pieces
+	t.peers = append(t.peers, p)
+}
+
+func VerifInfoBitmapCount(t *Torrent) int { return t.infoBitmap.Count() }
+
+func VerifMetadataVote(t *Torrent, size uint32) error { return metadataVote(t, size) }
